@@ -335,7 +335,9 @@ def c04_program(r, depth=2):
     e = lambda d=1: g.expr(d)
     lit = lambda: r.choice(["1", "-1", "0", "null", "true", "false", '"a"', "[]", "{}", "[1]", "-(1)", "+1", "1.5", "-0", '"x\\(1)"'])
     near = lambda: r.choice([".", ".a", "$x", "(1,2)", "empty", "1+1", "[.]", '"a"+"b"', "error", "..", "first", "break $l", "label $m | .", "label $m | 1", "$__loc__" if False else "2"])
-    k = r.randrange(22)
+    k = r.randrange(24)
+    if k >= 22:
+        k = 16
     if k == 0:   # literal arrays of every shape, including ones that only look constant
         xs = [r.choice([lit(), lit(), near()]) for _ in range(r.randrange(1, 4))]
         s = "[" + ", ".join(xs) + "]"
@@ -352,6 +354,12 @@ def c04_program(r, depth=2):
         s = r.choice(["-1", "-(1)", "-1.5", "+1", "-(-1)", "-.", "-.a", "-[1][0]", "- 1 + 2", "-1[0]?", "-(1,2)", "-$x", "-(.a)?", "[-1, -2]", "{a: -1}", ".[-1]", ".[-1:]", ".[:-1]"])
     elif k == 3:  # constant and near-constant index / slice paths
         s = r.choice([".a", '."a"', '.["a"]', ".[0]", ".[-1]", ".[1:2]", ".[1:]", ".[:1]", ".[(0)]", '.[("a")]', ".[0,1]", ".[$x]", ".[1:$x]", ".[-1:]", '.["a","b"]', ".[1.5]", ".[null:1]", '."a\\(1)"', ".a.b", ".a[0]", ".[0].a", ".a[1:]", ".a?", ".[0]?", ".[]?"])
+    elif k == 16:  # literals WITH suffixes in index position (must not be folded), constant indices applied to fresh values inside path expressions
+        idx = r.choice(['.["abc"[1:]]', '.["ab"[0:1]]', '.["a"[0:]]', '.["a"?]', '.["ab"[]]?', '.[1[0]?]', '.[-1[0]]?', '.[("abc"[1:])]', '.["a" | ascii_downcase]', '.["a", "b"[0:]]', '.a["bc"[1:]]', '."a"["b"?]', '.[null[0]]', '.[[0][0]]', '.[{}.a]'])
+        fresh = r.choice(["null", "1", "[]", "{}", '"s"', "(.b // null)", "(.a | not)", "[.]", "{a: .}", "(.a | values)", "(null, .)", "$x", ".[0]?", "(.. | nulls)", "first(null, 1)"])
+        ci = r.choice([".a", ".[0]", ".[1:]", '."a"', '.["a"]', ".[-1]", ".a.b", ".[0][1]", ".[:1]", ".a[0]", '.["a"]["b"]'])
+        s = r.choice([idx, "(" + idx + " = 9)", "try " + idx + ' catch "caught"', "[path(" + fresh + " | " + ci + ")]", "path(" + fresh + " | " + ci + ")", "(" + fresh + " | " + ci + ") = 3",
+                      "try path(" + fresh + " | " + ci + ') catch "invalid"', "try ((" + fresh + " | " + ci + ') |= 3) catch "invalid"', "del(" + fresh + " | " + ci + ")?", "[paths(" + fresh + " | " + ci + ")]?"])
     elif k == 4:  # constant paths on the left of =
         p = r.choice([".a", ".a.b", ".[0]", ".a[0]", ".[1:2]", ".[0][1]", '.["a"]', ".[$x]", ".a[$x]", ".[(0)]", "(.a)", "(.a).b", ".a[1:]", ".[-1]", ".a[-1]", ".[1:][0]", ".[:1][0]", ".a?", ".[]", ".. ", ".[0,1]"])
         s = "(" + p + " = " + r.choice([lit(), near(), "(1,2)", ".", ".a"]) + ")"
@@ -406,6 +414,63 @@ def c04_program(r, depth=2):
     else:
         s = e(depth)
     return "2 as $x | def g(p): [p, p]; def h($a): $a, .; label $l | " + s
+
+
+def scope_program(r):
+    """Lexical scoping: a definition, variable or label made INSIDE one sub-query of a construct must be invisible in its sibling
+    sub-queries.  Every construct with several sub-queries gets a shadowing `def f` / `as $v` / `def g(p)` in one of them and
+    uses of the outer f / $v / g in the others."""
+    templates = [
+        ("reduce %s as $z (%s; %s)", 3), ("foreach %s as $z (%s; %s; %s)", 4), ("foreach %s as $z (%s; %s)", 3), ("if %s then %s else %s end", 3), ("if %s then %s elif %s then %s else %s end", 5),
+        ("try %s catch %s", 2), ("(%s | %s)", 2), ("(%s, %s)", 2), ("(%s // %s)", 2), ("(%s and %s)", 2), ("(%s + %s)", 2), ("(%s == %s)", 2), ("{(%s): %s}", 2), ("{a: %s, b: %s}", 2), ("[%s, %s]", 2),
+        ("h(%s; %s)", 2), ("(%s as $w | %s)", 2), ("(label $m | %s, %s)", 2), ("(%s as [$p] ?// $p | %s)", 2), ("((%s) |= %s)", 2), ("((%s) = %s)", 2), ("((%s) += %s)", 2), ('"\\(%s) \\(%s)"', 2),
+        ("[limit(%s; %s)]", 2), ("[path(%s), %s]", 2), ("(.[%s:%s])", 2), ("(.[%s]?, %s)", 2), ("((%s)?, %s)", 2), ("[range(%s; %s)]", 2), ("first(%s, %s)", 2), ("[%s | select(%s)]", 2),
+        ("(%s | h(%s; %s))", 3), ("[.[]? | %s, %s]", 2), ("(def k: %s; k, %s)", 2), ("(def k(q): q, %s; k(%s))", 2), ("(reduce %s as $z (%s; %s) | %s)", 4), ("[(%s | tojson), (%s | tojson)]", 2),
+    ]
+    t, n = r.choice(templates)
+    inner = lambda: r.choice(['(def f: "inner"; f)', '(def f: "inner"; def g: f; g)', '("shadow" as $v | $v)', '(def f: "inner"; 1) ', '(def g(p): "inner-g"; g(1))', '(def f(a): "inner1"; f(0))',
+                              '(def f: "inner"; . as $v | f)', '("shadow" as $v | def f: $v; f)', '(def f: def f: "inner2"; f; f)', '(label $f | "lab")', '(. as [$v] | $v)', '(def h(a; b): "inner-h"; h(1; 2))'])
+    use = lambda: r.choice(["f", "f", "$v", "g(1)", "f", "[f, $v]", "(f | length)", "h(f; $v)", "0", "1", ".", ".a?", "empty", "(1, 2)", "null", '"s"', "[]"])
+    holes = [use() for _ in range(n)]
+    holes[r.randrange(n)] = inner()
+    if r.randrange(3) == 0:
+        holes[r.randrange(n)] = inner()
+    return 'def f: "outer"; def g(p): ["G", p]; def h(a; b): [a, b]; "V" as $v | ' + t % tuple(holes)
+
+
+def lookalike_programs():
+    """Array and object literals whose instruction sequence LOOKS like a list of constants (fork / const / jump / const ...) but is
+    not one: control constructs over constants piped into a constant.  Complete enumeration over a small alphabet."""
+    leaves = ["1", "[1]", ".", "$x", '"s"', "empty"]
+    tails = ["2", "null", ".", "[.]"]
+    forms = ["[((%a, %b) | %k)]", "[(((%a, %b)) | %k)]", "{a: [((%a, %b) | %k)]}", "[((%a // %b) | %k)]", "[((%a, %b, %a) | %k)]", "[(if . then %a else %b end | %k)]", "[((%a, %b) | %k | %k)]", "[(%a, %b) | %k]", "[(%a, %b) | %k, 3]", "[3, ((%a, %b) | %k)]", "[(%a // %b) | %k]", "[if . then %a else %b end | %k]", "[(%a, %b, %a) | %k]", "[((%a, %b) | %k), ((%b, %a) | %k)]",
+             "{a: ((%a, %b) | %k)}", "{(%a | tostring): ((%a, %b) | %k)}", "[(%a, %b) | %k | %k]", "[(%a | %k), %b]", "[%a, (%b | %k)]", "[(try %a catch %b) | %k]", "[(%a, %b) as $z | %k]", "[first(%a, %b) | %k]",
+             "[[(%a, %b) | %k]]", "[(%a, (%b | %k))]", "[((%a, %b) | %k)?]", "[(%a, %b) | (%k, %k)]", "{a: [(%a, %b) | %k], b: [%a, %b]}"]
+    out = []
+    for f in forms:
+        for a in leaves:
+            for b in leaves:
+                for k in tails:
+                    out.append("1 as $x | " + f.replace("%a", a).replace("%b", b).replace("%k", k))
+    return out
+
+
+def join_program(r):
+    """Control constructs whose branches END in a one-instruction value (variable load, constant, identity) and whose join point
+    is followed by an instruction that replaces or drops the top of the stack - the shapes on which a peephole rewrite must know
+    that the join point is reached from several places."""
+    leaf = lambda: r.choice(["$x", "$y", "$x", "$y", ".", "1", '"s"', ".a", "null", "[1]", "$__loc__.line", "-1", "empty", "(1, 2)"])
+    cond = lambda: r.choice(["true", "false", ".", ".a", "$x == 1", "(true, false)", "null", ". == null"])
+    a, b, c = leaf(), leaf(), leaf()
+    ctrl = r.choice([
+        "if %s then %s else %s end" % (cond(), a, b), "if %s then %s elif %s then %s else %s end" % (cond(), a, cond(), b, c), "if %s then %s end" % (cond(), a),
+        "(%s // %s)" % (a, b), "(try %s catch %s)" % (a, b), "(%s, %s)" % (a, b), "(%s as [$p] ?// $p | %s)" % (a, b), "(label $m | %s, break $m, %s)" % (a, b),
+        "(%s)?" % a, "(%s | if %s then %s else %s end)" % (c, cond(), a, b), "first(%s, %s)" % (a, b), "(%s and %s)" % (a, b), "(%s or %s)" % (a, b),
+        "(reduce %s as $z (%s; %s))" % (c, a, b), "(foreach %s as $z (%s; %s; %s))" % (c, a, b, leaf()), "(if %s then %s else %s end, %s)" % (cond(), a, b, c),
+    ])
+    tail = r.choice([" | 1", ' | "k"', " | null", " | []", " | {}", " | empty", " | ., 1", " as $z | 2", " as $z | $z", " | $x", " | not", " | -1", " | [.]", "", " | (1, 2)", " | $__loc__.line"])
+    obs = r.choice(["{a: (%s)}", "{a: 1, b: (%s), c: 2}", "[{k: (%s)}]", "{(\"k\"): (%s), z: .}", "[1, {a: (%s)}, 2]", "{a: {b: (%s)}}", "[%s]", "%s", "{a: [(%s)]}", "({a: (%s)} | .a)"])
+    return "1 as $x | 2 as $y | " + obs % (ctrl + tail)
 
 
 CONTEXT = "2 as $x | def g(p): [p, p]; def h($a): $a, .; label $l | "
